@@ -1411,6 +1411,8 @@ func testH2(t *testing.T, prop string) {
 	// the real entry point Config.Proxy (preface, first flight, TLS dial through the seam), both properties; registered
 	// first so that the thorough tier's time limit never cuts it
 	s.Add(explore.Scenario{Name: "config-proxy-quick", Remote: true, Tiers: []string{"quick"}, Run: runBubble(t, func(x *explore.X) { proxyEntryScenario(x, 2) })})
+	s.Add(explore.Scenario{Name: "through-martian-quick", Remote: true, Tiers: []string{"quick"}, Run: runBubble(t, func(x *explore.X) { entryScenario(x, 2, true) })})
+	s.Add(explore.Scenario{Name: "through-martian-thorough", Remote: true, Tiers: []string{"thorough"}, Run: runBubble(t, func(x *explore.X) { entryScenario(x, 3, true) })})
 	s.Add(explore.Scenario{Name: "config-proxy-thorough", Remote: true, Tiers: []string{"thorough"}, Run: runBubble(t, func(x *explore.X) { proxyEntryScenario(x, 3) })})
 	if prop == "C09" {
 		s.Add(explore.Scenario{Name: "flow-quick", Remote: true, Tiers: []string{"quick"}, Run: runBubble(t, func(x *explore.X) { flowScenario(x, q) })})
